@@ -1201,7 +1201,7 @@ def history_job(spec, given, sortmods):
 
 rng7 = chk.rng('histories')
 hl, hi, hm = [], [], []
-for i in range(N // 12):
+for i in range(min(N // 12, 1200)):
     proc = canmod.CanonicalizeModifications()
     nstep = rng7.choice([2, 2, 3])
     naming = rng7.choice(['same-name', 'same-name', 'different-names', 'same-object-edited'])
@@ -1325,7 +1325,7 @@ def run_identify_direct(spec):
 
 rng6 = chk.rng('identify-direct')
 dl, di, dm = [], [], []
-for i in range(N // 6):
+for i in range(min(N // 6, 2500)):
     gen = [gen_annot, gen_annot, gen_case, gen_standin, gen_two_iter][i % 5]
     spec = gen(rng6)
     ln, impl, errs, groups, res = run_identify_direct(spec)
